@@ -28,6 +28,7 @@ type Shared struct {
 	errorStringT types.Type // *errors.errorString
 	wrapErrorT   types.Type // *fmt.wrapError
 	fnInfos      sync.Map
+	locTable     sync.Map // interpreted *time.Location → native *time.Location
 	loadSeconds  float64
 	overlayFiles []string
 }
